@@ -137,6 +137,9 @@ Definition ctl_move (r : rrun) : option (option mact * rrun) :=
     | (at_, o) :: rest =>
       if at_ <=? l_now l then
         let r0 := mkRun l (r_gone r) PIdle rest (r_conf r) in
+        (* once the writer has closed the destination it unregisters the link (RemoveLink, right after dest.Close()):
+           operations that start afterwards do not touch this connection any more *)
+        if (match l_sink_closed l with Some _ => true | None => false end) then just_ph r0 PIdle else
         match o with
         | OAdd tx eff effp =>
           match last_live (r_gone r) 0 None with
